@@ -238,6 +238,17 @@ func (w *world) exec(op string) (string, int) {
 				}
 			}
 		}()
+		wg.Add(1)
+		go func() { // SetTSO into the current millisecond, a little ahead of the counter
+			defer wg.Done()
+			for k := 0; k < 40; k++ {
+				p, l, _ := tso.VerifView(m.alloc)
+				if p == 0 {
+					continue
+				}
+				m.alloc.SetTSO(tsoutil.ComposeTS(p/1e6, (l+int64(20+k*7))%262144))
+			}
+		}()
 		for g := 0; g < n; g++ {
 			wg.Add(1)
 			go func() {
